@@ -110,7 +110,7 @@ PROPS = {
         'explanation': 'The name argument of the construction sites under contract is part of the whole-view postconditions: arithmetic / comparison results unnamed, copy / slice / mask / unary keep the name; _resolve_binary_name equals the statement rule. Table-level propagation and aggregate/window output names are bounded only.',
     },
     'C19': {
-        'level': 'proof',
+        'level': 'proof', 'extra': ['pyframe.csvsite'],
         'explanation': '_infer_type equals the cell rule of the statement path by path (int()/float() acceptance uninterpreted and shared with the spec). Column assembly, padding, header modes and empty inputs are bounded (round trip through csv.writer).',
         'trusted': ['csv.reader (lexical layer) - the statement defines it as the csv module does'],
     },
